@@ -233,8 +233,36 @@ def cacheRun (extra : String) : String :=
     "cache:" ++ ",".intercalate outs
   | _ => "badcache"
 
+/-- the glue around the cache model: `getRegexp` on the (replaceable) package-level pattern cache.  Ops as in
+the harness (`runRxCache`); the loader is the identity on valid patterns and fails on invalid ones.  A
+run-time pattern costs one `get`; a literal pattern one `get` at compile time and, if that succeeded, one at
+evaluation. -/
+def rxCacheRun (extra : String) : String :=
+  let ops := (extra.splitOn ";").filter (· != "")
+  let step (acc : Nat × Cache.Cache × Nat × List String) (op : String) : Nat × Cache.Cache × Nat × List String :=
+    let (cap, c, loads, outs) := acc
+    let f := ((op.drop 1).toString).splitOn ","
+    if op.startsWith "W" then (f.head!.toNat!, ⟨[], 0⟩, loads, outs)
+    else
+      let valid := f.head! == "1"
+      let p := (f.getD 1 "")
+      let load (_ : String) : Option String := if valid then some p else none
+      let one (st : Cache.Cache × Nat) : Cache.Cache × Nat :=
+        let hit := (st.1.lookup p).isSome
+        ((Cache.get cap load st.1 p).1, if hit then st.2 else st.2 + 1)
+      let st := one (c, loads)
+      let st := if op.startsWith "L" && valid then one st else st
+      (cap, st.1, st.2, outs ++ [(if valid then "ok" else "err") ++ "/" ++ toString st.2 ++ "/" ++ toString st.1.m.length])
+  let (_, _, _, outs) := ops.foldl step (0, ⟨[], 0⟩, 0, [])
+  "rx:" ++ ",".intercalate outs
+
 /-- the model's answer for one history op: by clone-per-call (F15) every op equals the fresh result -/
-def histOp (rc : RunCfg) (c : Case) (op : String) : String :=
+def histOp (rc : RunCfg) (c0 : Case) (doc2 : Option Doc) (op0 : String) : String :=
+  -- `S@…` / `E@…`: the op runs on the second document of the history
+  let onSecond := ((op0.drop 1).toString).startsWith "@"
+  let op := if onSecond then (op0.take 1).toString ++ (op0.drop 2).toString else op0
+  let c : Case := if onSecond then { c0 with doc := doc2.getD [] } else c0
+  if onSecond && doc2.isNone then "badop" else
   if op.startsWith "S" then
     match ((op.drop 1).toString).splitOn ":" with
     | [ctx, k] =>
@@ -283,11 +311,13 @@ def runCase (rc : RunCfg) (c : Case) : String × String :=
       ("meta:" ++ a ++ "~" ++ b, sp)
     | _ => ("badmeta", "-")
   | "hist" =>
-    let ops := (c.extra.splitOn ";").filter (· != "")
+    let all := (c.extra.splitOn ";").filter (· != "")
+    let doc2 : Option Doc := (all.find? (·.startsWith "D")).map (fun s => parseDoc (unhexStr (s.drop 1).toString))
+    let ops := all.filter (fun s => !s.startsWith "D")
     match compileCase rc c c.expr with
     | .error _ => ("cerr", "-")
     | .ok _ =>
-      let outs := ops.map (fun op => let r := histOp rc c op; r ++ "~" ++ r)
+      let outs := ops.map (fun op => let r := histOp rc c doc2 op; r ++ "~" ++ r)
       ("hist:" ++ ";".intercalate outs, "-")
   | "iter" =>
     let s := modelSel rc c c.expr c.ctx
@@ -298,6 +328,7 @@ def runCase (rc : RunCfg) (c : Case) : String × String :=
   | "nav" => ("nav:" ++ navDump c.doc, "-")
   | "key" => ("keys:" ++ ",".intercalate ((allRefs c.doc).map (fun r => hex16 (identityHash c.doc (ecfg rc c) r))), "-")
   | "cache" => (cacheRun c.extra, "-")
+  | "rxcache" => (rxCacheRun c.extra, "-")
   | _ => ("-", "-")
 
 partial def loop (rc : RunCfg) (hin : IO.FS.Stream) (hout : IO.FS.Stream) : IO Unit := do
